@@ -108,7 +108,7 @@ func CapGapWitness() Spec {
 func GenSpec(r *vh.Rng) Spec {
 	spec := newSpec()
 	nn := r.Range(1, 3)
-	spec.Actions = vh.Pick(r, [][]int64{{1}, {2}, {1}, {2}, {1, 2}, {2, 1}})
+	spec.Actions = vh.Pick(r, [][]int64{{1}, {2}, {1}, {2}, {1, 2}, {2, 1}, {3}, {3}, {3, 2}})
 	// three quarters of the clusters are staged: job 1 is a running low-priority victim above its gang
 	// minimum, job 2 a starving high-priority preemptor (same queue for preempt, another for reclaim)
 	staged := r.Chance(3, 4)
@@ -188,6 +188,10 @@ func GenSpec(r *vh.Rng) Spec {
 			wantRun := (mode == 0 && !r.Chance(1, 6)) || (mode == 2 && r.Chance(1, 2)) || (mode == 1 && r.Chance(1, 8))
 			if wantRun {
 				ts.Status = vh.Pick(r, []int64{sched.SRunning, sched.SRunning, sched.SRunning, sched.SRunning, sched.SBound, sched.SReleasing, sched.SSucceeded})
+				// reclaim must leave Bound pods alone (preempt may take them): offer some on the victim side
+				if staged && j == 1 && spec.Actions[0] == 2 && ts.Status == sched.SRunning && r.Chance(1, 3) {
+					ts.Status = sched.SBound
+				}
 				// a third of the clusters look like a session in which allocate / backfill ran before
 				if afterAllocate && r.Chance(1, 3) {
 					ts.Status = vh.Pick(r, []int64{sched.SAllocated, sched.SAllocated, sched.SBinding, sched.SBinding, sched.SPipelined})
@@ -332,6 +336,31 @@ func GenSpec(r *vh.Rng) Spec {
 				}
 			default:
 				spec.Faults = append(spec.Faults, [2]int64{t.ID, int64(r.Range(1, nn))})
+			}
+		}
+	}
+	// topology-aware preempt makes ONE real attempt per preemptor (on the node its dry run chose): a fault on every
+	// node for one preemptor of a gang with several pending pods makes that attempt fail for sure while the
+	// gang can still become pipelined through the others
+	if spec.Actions[0] == 3 && r.Chance(1, 2) {
+		pend := map[int64][]int64{}
+		for _, t := range spec.Tasks {
+			if t.Status == sched.SPending && t.CPU > 0 {
+				pend[t.Job] = append(pend[t.Job], t.ID)
+			}
+		}
+		for _, j := range spec.Jobs {
+			if len(pend[j.ID]) >= 2 {
+				victim := vh.Pick(r, pend[j.ID])
+				for n := int64(1); n <= int64(nn); n++ {
+					spec.Faults = append(spec.Faults, [2]int64{victim, n})
+				}
+				for i := range spec.Jobs {
+					if spec.Jobs[i].ID == j.ID && spec.Jobs[i].Min >= int64(len(pend[j.ID])) && r.Chance(2, 3) {
+						spec.Jobs[i].Min = int64(r.Range(1, len(pend[j.ID])-1))
+					}
+				}
+				break
 			}
 		}
 	}
